@@ -34,6 +34,14 @@ if not PIECES:
 PAYLOAD = COMPRESSED[2:]                       # model compression: a 2-byte header + payload
 
 
+def _vscale(v):
+  """virtual -> stored size under scaled_blocks: 3 bytes per full 256 KiB block, 4 for a shorter tail."""
+  return 3 * (v // BLOCK) + (4 if v % BLOCK else 0)
+
+
+fs_model.VSCALE = _vscale
+
+
 class NetFault(Exception):
   pass
 
@@ -70,6 +78,9 @@ class Net:
 
       def raise_for_status(self):
         pass
+
+      def close(self):
+        pass
     return Resp()
 
 
@@ -78,10 +89,14 @@ class _Lzma:
     self.fs = fs
 
   def open(self, path, mode='rb'):
-    data = self.fs.read(path)
+    return fs_model._Reader(self.decompress(self.fs.read(path)))
+
+  @staticmethod
+  def decompress(data):
+    data = bytes(data)
     if data[:2] != b'LZ':
       raise ValueError('not an lzma stream')
-    return fs_model._Reader(data[2:])
+    return data[2:]
 
 
 _FSBOX = [None]
@@ -162,7 +177,7 @@ def _post_cifar(mod):
   mod.os = fs_model.OSFacade(_PROXY)
   mod.downloads = DL
   mod.sqlite_federated_data = _SqliteStub
-  mod._TFF_SQLITE_COMPRESSED_NUM_BYTES = len(COMPRESSED)
+  mod._TFF_SQLITE_COMPRESSED_NUM_BYTES = len(COMPRESSED)      # validate_file reads the (stored) content and takes its len()
   mod._TFF_SQLITE_COMPRESSED_HEXDIGEST = hashlib.sha256(COMPRESSED).hexdigest()
   mod._FEDJAX_SQLITE_NUM_BYTES = {'train': len(BUILT), 'test': len(BUILT)}
   mod._FEDJAX_SQLITE_HEXDIGEST = {'train': hashlib.sha256(BUILT).hexdigest(), 'test': hashlib.sha256(BUILT).hexdigest()}
